@@ -47,13 +47,21 @@ def toRat (d : Dec) : Rat :=
 def smant (d : Dec) : Int := if d.neg then -(d.mant : Int) else (d.mant : Int)
 /-- `PrettyDecimal::unformatted(value)`: same sign flag, mantissa and scale, no format tag. -/
 def toPDec (d : Dec) : PDec := ⟨d.neg, d.mant, d.scale, none⟩
-/-- `Decimal + Decimal` inside the exact range (96-bit mantissa, scale ≤ 28): operands are brought to the
-larger scale and the signed mantissas added; a zero result is non-negative.
-(rust_decimal's behaviour outside that range is not modelled.) -/
+/-- `Decimal + Decimal` (`ops::add::add_sub_internal`) inside the exact range (96-bit mantissa, scale ≤ 28):
+a zero operand returns the *other operand unchanged* (its own scale and sign flag); otherwise the operands are
+brought to the larger scale; equal signs add, different signs subtract the smaller magnitude from the larger,
+the sign being the left operand's unless the right one is larger in magnitude (so `x + (-x)` is a zero with
+the left operand's sign).  (rust_decimal's behaviour outside that range is not modelled.) -/
 def add (a b : Dec) : Dec :=
-  let s := max a.scale b.scale
-  let m : Int := a.smant * (10 : Int) ^ (s - a.scale) + b.smant * (10 : Int) ^ (s - b.scale)
-  ⟨decide (m < 0), m.natAbs, s⟩
+  if a.isZero then b
+  else if b.isZero then a
+  else
+    let s := max a.scale b.scale
+    let ma := a.mant * 10 ^ (s - a.scale)
+    let mb := b.mant * 10 ^ (s - b.scale)
+    if a.neg = b.neg then ⟨a.neg, ma + mb, s⟩
+    else if ma ≥ mb then ⟨a.neg, ma - mb, s⟩
+    else ⟨b.neg, mb - ma, s⟩
 end Dec
 
 /-- `import::amount::OwnedAmount`. -/
